@@ -24,9 +24,36 @@ class SingleRootField(June2018ReleaseValidationRule):
     RULE_LINK = "https://graphql.github.io/graphql-spec/June2018/#sec-Single-root-field"
     RULE_NUMBER = "5.2.3.1"
 
+    @staticmethod
+    def _does_fragment_type_apply(schema, root_type, type_condition):
+        # A fragment only contributes to the root selection if its type
+        # condition applies to the subscription root type
+        if not type_condition or not root_type or not schema:
+            return True
+
+        condition_name = type_condition.name.value
+        if condition_name == root_type.name:
+            return True
+
+        try:
+            condition_type = schema.find_type(condition_name)
+        except KeyError:
+            return True  # Handled by another validator
+
+        return root_type.name in getattr(
+            condition_type, "possible_types_set", ()
+        )
+
     def _collect_response_keys(
-        self, selection_set, fragments, visited_fragments, response_keys
+        self,
+        selection_set,
+        fragments,
+        visited_fragments,
+        response_keys,
+        schema=None,
+        root_type=None,
     ):
+        # pylint: disable=too-many-arguments
         for selection in selection_set.selections:
             if isinstance(selection, FragmentSpreadNode):
                 fragment_name = selection.name.value
@@ -38,18 +65,32 @@ class SingleRootField(June2018ReleaseValidationRule):
                 if not frag:
                     continue  # Handled by another validator
 
+                if not self._does_fragment_type_apply(
+                    schema, root_type, frag.type_condition
+                ):
+                    continue
+
                 self._collect_response_keys(
                     frag.selection_set,
                     fragments,
                     visited_fragments,
                     response_keys,
+                    schema,
+                    root_type,
                 )
             elif isinstance(selection, InlineFragmentNode):
+                if not self._does_fragment_type_apply(
+                    schema, root_type, selection.type_condition
+                ):
+                    continue
+
                 self._collect_response_keys(
                     selection.selection_set,
                     fragments,
                     visited_fragments,
                     response_keys,
+                    schema,
+                    root_type,
                 )
             else:
                 response_keys.add(
@@ -60,14 +101,22 @@ class SingleRootField(June2018ReleaseValidationRule):
         return response_keys
 
     def _validate_selection_set(
-        self, operation, selection_set, fragments, path
+        self, operation, selection_set, fragments, path, schema=None
     ):
+        # pylint: disable=too-many-arguments
         # The rule is about the collected fields: the same response key
-        # selected several times is still a single root field
+        # selected several times is still a single root field, a fragment
+        # which does not apply to the root type selects nothing
+        root_type = None
+        if schema:
+            root_type = schema.type_definitions.get(
+                schema.subscription_operation_name
+            )
+
         response_keys = self._collect_response_keys(
-            selection_set, fragments, set(), set()
+            selection_set, fragments, set(), set(), schema, root_type
         )
-        if len(response_keys) > 1:
+        if len(response_keys) != 1:
             message = f"{f'Subcription {operation.name.value}' if operation.name else 'Anonymous Subscription'}"
             return [
                 graphql_error_from_nodes(
@@ -80,7 +129,7 @@ class SingleRootField(June2018ReleaseValidationRule):
 
         return []
 
-    def validate(self, path, definitions, **__):
+    def validate(self, path, definitions, schema=None, **__):
         errors = []
         for operation in definitions["OperationDefinition"]:
             if operation.operation_type == "subscription":
@@ -90,6 +139,7 @@ class SingleRootField(June2018ReleaseValidationRule):
                         operation.selection_set,
                         definitions["FragmentDefinition"],
                         path,
+                        schema,
                     )
                 )
 
